@@ -790,6 +790,33 @@ def c08(ctx):
                 src = pre + inner + suf
                 ecases.append({"src": src, "media": "ts", "rules": [rule]})
                 emeta.append(("inside", (rule, which, tuple(chain)), len(pre.encode("utf8")) + off, src))
+    # the offending EXPRESSION inside its enclosing construct, wrapped in every context that is not a function boundary
+    INSIDE_E = [("no-await-in-loop", "async function io() { for (;;) { ", " } }", "await x", "x"),
+                ("no-await-in-loop", "async function io() { while (h()) { ", " } }", "await x", "x"),
+                ("no-await-in-loop", "async function io() { for (const q of it) { ", " } }", "await x", "x"),
+                ("no-top-level-await", "", "", "await x", "x"),
+                ("no-sync-fn-in-async-fn", "async function io() { ", " }", "Deno.readSync(1)", "Deno.read(1)"),
+                ("no-await-in-sync-fn", "function io() { ", " }", "await x", "x"),
+                ("no-this-before-super", "class A extends B { constructor() { ", " super(); } }", "this.x", "x"),
+                ("no-this-before-super", "class A extends B { constructor() { ", " super(); } }", "super.m()", "x")]
+    FN_WORDS = ("=>", "function", "class", "get ", "set ", "m()", "static", "<A", "export")
+    NONFN = [k for k, c in CTX.items() if not any(w in c[3] + c[4] for w in FN_WORDS) and "top" not in c[6].split() and "tsx" not in c[6].split()]
+    nf_e = [k for k in NONFN if CTX[k][1] == "E"]
+    for (rule, pre, suf, ex, twin) in INSIDE_E:
+        chains = [[k] for k in nf_e]
+        rng_e = random.Random(ctx.seed * 7 + len(rule))
+        for _ in range(40 if ctx.tier == "quick" else 400):
+            ch = random_chain(rng_e, NONFN, "E", rng_e.choice([2, 3]))
+            if ch:
+                chains.append(ch)
+        for chain in chains:
+            if not chain_well_typed(chain, "E"):
+                continue
+            for which, text in (("stmt", ex), ("twin", twin)):
+                inner, off, _ = assemble(chain, "(" + text + ")")
+                src = pre + inner + suf
+                ecases.append({"src": src, "media": "ts", "rules": [rule]})
+                emeta.append(("inside", (rule, which, ("expr",) + tuple(chain)), len(pre.encode("utf8")) + off + 1, src))
     # re-entrancy: a clean instance of the SAME kind of construct sits inside a member of the offending construct and the
     # offending construct continues after it; expected = diagnostics without the nested instance, shifted behind the hole
     REENTRANT = [
@@ -875,7 +902,6 @@ def c08(ctx):
             if got is None:
                 continue
             if which == "stmt":
-                stmt_text = [x for x in INSIDE if x[0] == rule][0]
                 hit = [g for g in got if g[1] <= off < max(g[2], g[1] + 1) or g[1] == off]
                 if hit:
                     n_e_ok += 1
